@@ -5,13 +5,13 @@ VERIF = os.path.dirname(os.path.dirname(os.path.abspath(__file__)))
 ENV = dict(os.environ, CARGO_NET_OFFLINE='true')
 
 # (property, key-prefix) -> test filter in /verif/confirm
-TABLE = {}
+TABLE = {('C20', 'print-unnamed'): 'c20', ('C13', 'batch-dispose'): 'c13'}
 
 
 def run(pid, key):
     for (p, prefix), flt in TABLE.items():
         if p == pid and key.startswith(prefix):
-            cmd = ['cargo', 'test', '--offline', '--target-dir', os.path.join(VERIF, '.build', 'confirm'), flt]
+            cmd = ['cargo', 'test', '--offline', '--target-dir', os.path.join(VERIF, '.build', 'confirm'), '--test', flt]
             r = subprocess.run(cmd, cwd=os.path.join(VERIF, 'confirm'), stdout=subprocess.PIPE, stderr=subprocess.STDOUT, text=True, env=ENV)
             if 'test result: FAILED' in r.stdout or 'panicked' in r.stdout:
                 return 'confirmed', r.stdout
